@@ -128,6 +128,9 @@ class SimPath(pathlib.PosixPath):
         return str(self)
 
     def glob(self, pattern, **kw):
+        if pattern.startswith("**/"):
+            yield from self.rglob(pattern[3:])
+            return
         for n in FS.listdir(self._s()):
             if fnmatch.fnmatchcase(n, pattern):
                 yield self / n
@@ -293,7 +296,8 @@ def install(fs: SimFS, patch_resources: bool = True) -> None:
             mode, size = _stat.S_IFREG | 0o444, len(FS.dirs[d][n])
         else:
             raise FileNotFoundError(errno.ENOENT, "No such simulated file or directory", s)
-        return os.stat_result((mode, 1, 1, 1, 0, 0, size, 0, 0, 0))
+        ino = int.from_bytes(s.encode("utf-8", "replace")[-6:].rjust(6, b"\0"), "big") ^ (len(s) << 40)
+        return os.stat_result((mode, ino, 1, 1, 0, 0, size, 0, 0, 0))
 
     def sim_stat(path, *a, **k):
         s = _under(path)
